@@ -268,6 +268,10 @@ func TestC02Large(t *testing.T) {
 						o.MaxAlerts, o.MinAlerts, o.MaxSelectors = n, n, 1
 					}
 					m, info := rgen.GenMsg(t, o)
+					for i := 0; len(m.Entities)%16 != 13; i++ {
+						// an entity count that leaves a remainder for every plausible number of chunks or workers
+						m.Entities = append(m.Entities, rgen.Entity{ID: fmt.Sprintf("odd%d", i), VP: &rgen.VehiclePos{Vehicle: &rgen.VehDesc{ID: rgen.P(fmt.Sprintf("odd-vehicle-%d", i))}, StopID: rgen.P("S1")}})
+					}
 					times := 0
 					for i := range m.Entities {
 						if tu := m.Entities[i].TU; tu != nil {
